@@ -33,7 +33,7 @@ func propC13(c *Ctx) propInfo {
 	c.floor("E9.K1-guarded-by", 20)
 	c.floor("E9.K2-pairing", 10)
 	c.floor("E9.K6-bounded-waits", 2)
-	c.floor("E12.selection", 5)
+	c.floor("E12.selection", 7)
 	c.floor("E9.K7-waitlist-ids", 2)
 	return propInfo{
 		explanation: "Static structural clauses of C13 (DESIGN.md §4 C13): guarded-by table for ConnPool and connection under a must-lockset dataflow, pairing, no blocking operation under a lock, acyclic lock order, every wait of the exported wait functions is a select with a ctx.Done() case (and a timer case for WaitMasterchainSeqno), both selection functions reject a connection under exactly the same two predicates and update their running best only behind both filters, the refresh stores bestConn only when a candidate was found, and registered wait-list ids can never equal the id returned on the fast path. Decides these necessary conditions, not optimality over all configurations or wait latency. The best-ping replacement compares with the running best's own round-trip time or a copy updated on the same edges; accepted heads are published with one blocking send (K8).",
@@ -125,6 +125,40 @@ func (c *Ctx) selectionRules() {
 	// behind both reject filters
 	c.updatesBehindFilters(R, fb)
 	c.replacementKey(R, fb)
+	// "first working" means first in configuration order: the list both scans iterate is kept sorted by
+	// connection id by the only function that adds to it (connections finish their handshakes in any order)
+	if ad := c.mustFn(R, "liteapi/pool", "ConnPool.addConnection"); ad != nil {
+		okSort := false
+		for _, ci := range callsIn(ad) {
+			q := callQName(ci.Common())
+			if q == "sort.Slice" || q == "sort.SliceStable" || strings.HasPrefix(q, "slices.SortFunc") || strings.HasPrefix(q, "slices.SortStableFunc") {
+				if strings.Contains(strings.Join(leaves(ci.Common().Args[0]), ","), "p.conns") {
+					// the comparison is on the connection id
+					for _, an := range ad.AnonFuncs {
+						ids := 0
+						for _, c2 := range callsIn(an) {
+							if fn := calleeFunc(c2.Common()); fn != nil && fn.Name() == "ID" {
+								ids++
+							}
+						}
+						allInstrs(an, func(_ *ssa.BasicBlock, in ssa.Instruction) {
+							if _, n, ok := fieldOfLoad(valueOf(in)); ok && n == "id" {
+								ids++
+							}
+						})
+						if ids >= 2 {
+							okSort = true
+						}
+					}
+				}
+			}
+		}
+		la := &lockAnalysis{c: c, funcs: c.moduleFuncs("liteapi/pool")}
+		la.whoMayWrite(R, "pool.ConnPool.conns", map[string]string{
+			"(*liteapi/pool.ConnPool).addConnection": "the only writer: appends and re-sorts by id",
+		})
+		c.check(okSort, R, "the connection list is kept in configuration order (sorted by id after every append)", ad.Pos(), "sort.Slice(p.conns, by ID)", "ConnPool.addConnection no longer sorts the connection list by id after appending: connections are added as their handshakes finish, so the list is not in configuration order and first-working (and the archive scan) pick a later-configured server although an earlier one qualifies")
+	}
 	// updateBest: each store to ConnPool.bestConn is dominated by "candidate != nil"
 	nSt := 0
 	okSt := true
@@ -477,6 +511,47 @@ func (c *Ctx) losslessPublication() {
 			okv = lv == "c,head"
 		}
 	}
+	// consumer side: every update taken off the channel is handed to notifySubscribers as it is.
+	// Updates come from different connections and notifySubscribers ignores those that are not from
+	// the best one, so "keeping only the newest" of several queued updates can throw the best one's away.
+	if g := c.mustFn(R, "liteapi/pool", "ConnPool.Run"); g != nil {
+		nRecv := 0
+		var sel *ssa.Select
+		allInstrs(g, func(_ *ssa.BasicBlock, in ssa.Instruction) {
+			switch x := in.(type) {
+			case *ssa.UnOp:
+				if x.Op == token.ARROW {
+					if _, n, ok := fieldOfLoad(x.X); ok && n == "masterHeadUpdatedCh" {
+						nRecv++
+					}
+				}
+			case *ssa.Select:
+				for _, st := range x.States {
+					if _, n, ok := fieldOfLoad(st.Chan); ok && n == "masterHeadUpdatedCh" && st.Dir == types.RecvOnly {
+						nRecv++
+						sel = x
+					}
+				}
+			}
+		})
+		okR := nRecv == 1 && sel != nil
+		nCall := 0
+		for _, cl := range callsTo(g, modPath+"/liteapi/pool.ConnPool.notifySubscribers") {
+			nCall++
+			ex, isEx := cl.Call.Args[1].(*ssa.Extract)
+			if !isEx || ex.Tuple != ssa.Value(sel) {
+				okR = false
+			}
+		}
+		c.check(okR && nCall == 1, R, "Run hands every received head update to notifySubscribers unmerged", g.Pos(), "one receive, passed on as received", fmt.Sprintf("ConnPool.Run receives from masterHeadUpdatedCh at %d site(s) and passes a merged/selected value on: an update of the best connection can be replaced by a later one of another connection, which notifySubscribers ignores, and the waiter is never woken", nRecv))
+	}
 	c.check(okv, R, "SetMasterHead publishes every accepted head with a blocking send", f.Pos(), "one send of {Head: head, Conn: c} under the same condition as the store", fmt.Sprintf("SetMasterHead no longer hands every accepted head to the pool (blocking sends: %d, non-blocking sends that drop when the channel is full: %d): a waiter for that seqno is not woken although the best connection reported it in time", len(sends), nonBlocking))
-	c.floor(R, 1)
+	c.floor(R, 2)
+}
+
+func valueOf(in ssa.Instruction) ssa.Value {
+	if v, ok := in.(ssa.Value); ok {
+		return v
+	}
+	return nil
 }
